@@ -279,3 +279,31 @@ def borrow_rules(rep, run_other, from_prefix, to_rule):
         if o["rule"].startswith(from_prefix):
             o["key"] = o["key"].replace(o["rule"], to_rule, 1)
             o["rule"] = to_rule
+
+
+def concretise(I, f):
+    """The formula with the constant operands of comparison / equality atoms replaced by their evaluated values
+    (named constants, `u8::MAX as u32`, ... -> digits), so that integer semantics can be applied to it."""
+    import formula as F
+    if f is True or f is False:
+        return f
+    if f[0] == "atom":
+        a = f[1]
+        if a[0] in ("cmp", "eq"):
+            vals = I.atom_vals.get(a)
+            if vals and len(vals) == 2:
+                l, r = vals
+                cl, cr = I.concrete(l), I.concrete(r)
+                def txt(c, old):
+                    return str(c) if isinstance(c, int) and not isinstance(c, bool) else old
+                if a[0] == "cmp":
+                    return ("atom", ("cmp", a[1], txt(cl, a[2]), txt(cr, a[3])))
+                # eq atoms are stored in canonical order (non-constant first): keep the order, replace by value
+                from interp import core
+                sides = {core(l).r(): cl, core(r).r(): cr}
+                return ("atom", ("eq", txt(sides.get(a[1]), a[1]), txt(sides.get(a[2]), a[2])))
+        return f
+    if f[0] == "not":
+        return F.Not(concretise(I, f[1]))
+    parts = [concretise(I, g) for g in f[1]]
+    return F.And(*parts) if f[0] == "and" else F.Or(*parts)
